@@ -514,6 +514,23 @@ Section Inv.
           cbn [call_result_ok]. exists (next st). split; [reflexivity|]. apply Hb2. cbn [trans]. apply lookup_cons_eq.
   Qed.
 
+  (* one call *)
+  Lemma run_call_spec fuel c R st r st1 :
+    run_call src fuel c st = Ok (r, st1) -> inv R [] st ->
+    (forall s m, c = CRedirect s m -> lookup s (trans st) = None) ->
+    inv (redirected [c] ++ R) [] st1 /\ st_le st st1 /\ call_result_ok src (trans st1) c r.
+  Proof.
+    intros Hc Hi Hf.
+    assert (Hrun : run_calls src fuel [c] st = Ok ([r], st1)).
+    { unfold run_calls. cbn [mapM]. now rewrite Hc. }
+    assert (Hfr : redirects_fresh src fuel [c] st).
+    { intros cs1 s m cs2 E res st2 Hr. destruct cs1 as [|c1 cs1].
+      - injection E as -> _. injection Hr as _ <-. eapply Hf. reflexivity.
+      - injection E as _ E. destruct cs1; discriminate. }
+    destruct (run_calls_spec fuel [c] R _ _ _ Hrun Hi Hfr) as [Ha [Hb Hcc]].
+    split; [exact Ha|split; [exact Hb|]]. inversion Hcc; subst. assumption.
+  Qed.
+
   Lemma run_calls_app fuel : forall cs1 cs2 st results st',
     run_calls src fuel (cs1 ++ cs2) st = Ok (results, st') ->
     exists r1 st1 r2, run_calls src fuel cs1 st = Ok (r1, st1) /\ run_calls src fuel cs2 st1 = Ok (r2, st').
